@@ -1,8 +1,8 @@
-\* exhaustive: request of 3 items, parts of <=2 items over {1,2,3,9}, <=4 parts (hashes receiver); also the generation config
+\* exhaustive: request of 3 items, parts of <=2 items over {1,2}, <=4 parts (hashes receiver); also the generation config
 SPECIFICATION Spec
 CONSTANTS
   N = 3
-  Items <- ItemSet
+  Items <- ItemSet2
   MaxPart = 2
   MaxParts = 4
   Kind = "hashes"
